@@ -43,6 +43,17 @@ def main():
                 if viol:
                     idx = rr.stdout.splitlines().index(viol[0])
                     first = ' '.join(rr.stdout.splitlines()[idx + 1:idx + 2])[:300]
+                # keep the shrunk reproducers as regression cases of the owning property's check
+                for vl in viol:
+                    rp = vl.split('replay=')[-1].strip()
+                    if rp.endswith('.case') and os.path.exists(rp):
+                        cl = os.path.basename(rp).rsplit('-', 1)[0]
+                        if cl in ('crash', 'fuzz') or cl.startswith('regress'):
+                            continue
+                        dst = os.path.join(V, 'regress', p, '%s-%s.case' % (name, cl))
+                        os.makedirs(os.path.dirname(dst), exist_ok=True)
+                        import shutil
+                        shutil.copy(rp, dst)
                 det[p] = {'detected': bool(viol), 'exit': rr.returncode, 'violations': len(viol), 'first': first, 'wall_s': round(time.time() - t0, 1)}
                 print(name, p, 'DETECTED' if viol else 'MISSED', '%.0fs' % (time.time() - t0), flush=True)
             sh('git -C %s checkout -- .' % wt)
